@@ -33,7 +33,7 @@ FAULT_KINDS = ("plugin_raise", "plugin_raise", "saver_eio", "saver_eio", "loader
 
 def gen(seed, tier):
     r = rng_for(seed, "workload")
-    w = c01.gen(seed, tier, kinds=("rowmap", "filter", "merge2", "multi", "loop", "overlap", "downchunk"))
+    w = c01.gen(seed, tier, kinds=("rowmap", "filter", "merge2", "multi", "loop", "overlap", "downchunk", "cut"))
     spec, target = w["spec"], w["target"]
     need = sorted(G.needed_for(spec, target))
     nb = P.node_by_type(spec)
